@@ -219,7 +219,16 @@ class Ctx:
         }
         if self.exhaustive is not None:
             cov["exhaustive"] = bool(self.exhaustive)
-        cov.update(self.extra)
+        # keys the evidence schema types must not be shadowed by a driver's free-form extras
+        typed = {"evaluations": int, "distinct_nontrivial": int, "rule": str, "samples": list, "states": int,
+                 "transitions": int, "traces_validated_against_impl": int, "obligations": int, "discharged": int,
+                 "checker_cmd": str, "trusted_base": list, "programs": int, "disagreements_checked": int,
+                 "explanation": str, "exhaustive": bool}
+        for k, v in self.extra.items():
+            if k in typed and not isinstance(v, typed[k]):
+                cov[k + "_detail"] = v
+            elif k not in ("states", "transitions", "traces_validated_against_impl", "evaluations", "distinct_nontrivial", "samples"):
+                cov[k] = v
         ev = {
             "property_id": self.prop, "tier": self.tier, "seed": self.seed, "level": self.level,
             "coverage": cov, "assumptions": self.assumptions, "wall_s": round(wall, 2),
